@@ -803,8 +803,8 @@ type e2eCase struct {
 func runC25(c *core.Ctx) {
 	cells := serverCells()
 	var cases []e2eCase
-	nClean, nFault := c.Pick(6, 60), c.Pick(18, 340)
-	xClean, xFault := c.Pick(2, 20), c.Pick(4, 60)
+	nClean, nFault := c.Pick(6, 200), c.Pick(18, 1300)
+	xClean, xFault := c.Pick(2, 60), c.Pick(4, 200)
 	for _, cl := range cells {
 		for i := 0; i < nClean+nFault; i++ {
 			cases = append(cases, e2eCase{"ZZ", cl, i, i < nClean})
